@@ -93,4 +93,8 @@ with open(os.path.join(OUT, "MATRIX.md"), "w") as f:
             "| id | change | exit | failed obligations (deductive layer) | concrete failing input (bounded oracle) | first failed obligations |\n|---|---|---|---|---|---|\n")
     for r in rows:
         f.write("| " + " | ".join(str(x) for x in r) + " |\n")
+if NEUTRALISED:
+    if True:
+        with open(os.path.join(OUT, "MATRIX.md"), "a") as f2:
+            f2.write("\nNotes\n\n" + "".join(f"* {k}: {v}\n" for k, v in NEUTRALISED.items()))
 print(len(rows), "seeded changes assembled")
